@@ -5,6 +5,7 @@ package c12queue
 
 import (
 	"fmt"
+	"math"
 
 	"pgregory.net/rapid"
 
@@ -354,13 +355,22 @@ func execFifo(c Case, res *vkit.Result) *vkit.Result {
 
 type priEntry struct{ v, pri, seq int }
 
+// genPriority: mostly a small range with many ties, sometimes the extremes of int
+// (differences that overflow must not disturb the order).
+func genPriority(t *rapid.T) int {
+	if rapid.IntRange(0, 5).Draw(t, "extreme") == 0 {
+		return rapid.SampledFrom([]int{math.MinInt, math.MinInt + 1, math.MaxInt, math.MaxInt - 1, math.MinInt / 2, math.MaxInt / 2, math.MinInt32, math.MaxInt32, 1 << 40, -(1 << 40)}).Draw(t, "xpri")
+	}
+	return rapid.IntRange(-2, 2).Draw(t, "pri")
+}
+
 func genPri(t *rapid.T) Case {
 	c := Case{Kind: qadapt.KindPri}
 	c.CapReq = rapid.SampledFrom([]int{0, 1, 2, 3, 5, 8}).Draw(t, "cap")
 	n := rapid.IntRange(1, 40).Draw(t, "n")
 	for i := 0; i < n; i++ {
 		if rapid.IntRange(0, 9).Draw(t, "what") < 6 {
-			c.Steps = append(c.Steps, Step{Op: "push", Pri: rapid.IntRange(-2, 2).Draw(t, "pri")})
+			c.Steps = append(c.Steps, Step{Op: "push", Pri: genPriority(t)})
 		} else {
 			c.Steps = append(c.Steps, Step{Op: "poppri"})
 		}
@@ -416,6 +426,9 @@ func execPri(c Case, res *vkit.Result) *vkit.Result {
 				want = qadapt.Full
 				res.Class("refused-at-capacity")
 				res.NonTrivial = true
+			}
+			if st.Pri > 1<<30 || st.Pri < -(1<<30) {
+				res.Class("extreme-priority")
 			}
 			got := q.PushPri(1000+i, st.Pri)
 			if got != want {
@@ -480,7 +493,7 @@ func Exec(c Case) *vkit.Result {
 func part(name, kind string) *vkit.Part[Case] {
 	rule := "rapid: capacity (req 0/1/2/3/5, ctrl 0/1/2) x 1-40 steps drawn by folding the list model so that only non-blocking calls are issued (add, prior-add, ctrl/req lanes, Pop, PopAnyway, TryPop, Close, TryClose, TryClear, observers); after every step result, IsClosed/IsCleared/Len equal the model; final close + drain checks conservation (accepted = handed out + residue, no duplicate, nothing invented). Non-trivial: a refusal at capacity or a close with residue; distinct = distinct case JSON"
 	if kind == qadapt.KindPri {
-		rule = "rapid: capacity 0/1/2/3/5/8 x 1-40 steps of Push(priority -2..2, many ties) / Pop; Pop must return the highest priority, first-in among equals; Push refused exactly at capacity (0 admits nothing); Len equals the model; final drain checks conservation. Non-trivial: a refusal at capacity; distinct = distinct case JSON"
+		rule = "rapid: capacity 0/1/2/3/5/8 x 1-40 steps of Push(priority -2..2 with many ties, sometimes MinInt/MaxInt and other extremes) / Pop; Pop must return the highest priority, first-in among equals; Push refused exactly at capacity (0 admits nothing); Len equals the model; final drain checks conservation. Non-trivial: a refusal at capacity; distinct = distinct case JSON"
 	}
 	return &vkit.Part[Case]{Property: Property, Name: name, Rule: "[" + kind + "] " + rule, Quick: 15000, Thorough: 20000, Gen: Gen(kind), Exec: Exec}
 }
